@@ -1095,8 +1095,11 @@ class CodeGenerator(NodeVisitor):
                 "._body_stream:"
             )
             loop_body()
-        else:
+        elif frame.buffer is None:
             self.writeline("yield from template._get_default_module()._body_stream")
+        else:
+            self.writeline("for event in template._get_default_module()._body_stream:")
+            loop_body()
 
         if node.ignore_missing:
             self.outdent()
